@@ -5,7 +5,7 @@ writer by the documented compatible changes.  Only shapes are produced here: wha
 obtain is decided by TLC from spec/Derive.tla on the recorded events (spec/Trace_Derive.tla)."""
 import random
 
-BASIC = ["u8", "str", "bytes", "cu"]
+BASIC = ["u8", "str", "bytes", "cu", "bstr", "bslice", "bu8"]
 NESTED_TYS = ["inA", "inM", "e2", "e2x", "e2u", "io", "iox", "e2m", "e2mu", "e2a", "e2au"]
 TAGS = [0, 7, 23, 24, 255, 256, 65535, 65536]
 COMPAT = {"e2": ["e2x", "e2u"], "e2x": ["e2"], "e2u": ["e2"], "io": ["iox"], "iox": ["io"], "e2m": ["e2mu"], "e2mu": ["e2m"], "e2a": ["e2au"], "e2au": ["e2a"]}
@@ -22,6 +22,12 @@ def vals_t(ty, rng):
     """A random value of a field type (the shapes of spec/MC_Derive.tla!ValsT, wider scalars)."""
     if ty == "u8":
         return fv(n=rng.choice([0, 1, 7, 23, 24, 200, 255]))
+    if ty in ("cowb", "cown"):
+        return fv(b=rng.choice([b"", b"cow", "é".encode()]))
+    if ty in ("bstr",):
+        ty = "str"
+    if ty in ("bslice", "bu8"):
+        ty = "bytes"
     if ty == "str":
         return fv(b=rng.choice([b"", b"ab", b"x", "é".encode(), b"abcdefghijklmnopqrstuvwxyz"[:rng.randint(0, 26)]]))
     if ty == "bytes":
@@ -51,6 +57,8 @@ def rand_field(idx, rng, allow_skip=True, nested=True):
         return {"idx": idx, "opt": False, "tag": -1, "ty": "u8", "skip": True, "osp": "plain"}
     ty = rng.choice(BASIC + (NESTED_TYS if nested else [])) if rng.random() < 0.75 else rng.choice(["u8", "str"])
     opt = rng.random() < 0.55
+    if not opt and ty == "str" and rng.random() < 0.15:
+        ty = rng.choice(["cowb", "cown"])
     tag = rng.choice(TAGS) if rng.random() < 0.25 else -1
     osp = "plain"
     if opt and ty in ("u8", "str") and rng.random() < 0.3:
